@@ -55,3 +55,14 @@ package bag
 //@   on-call MustParseString path-text: $arg0 == as(path, slip.String)
 //@   on-call Has in-this-document: $arg0 == obj.Any
 //@   ensures empty-path-is-the-document: path == nil ==> result0 != nil
+
+// C18: walk with the as-bag flag hands every matched value to the function in a
+// bag of its own: a function that keeps the bags it was given finds in each the
+// value it was called with (what get returns for that element), not the last one.
+//@ func bag.walkBag
+//@   property C18
+//@   count-calls MakeInstance Call Apply
+//@   on-call Call#1 a-bag-of-its-own-per-value: $ncall_MakeInstance == $ncall_Call + 1
+//@   on-call Apply#1 a-bag-of-its-own-per-value: $ncall_MakeInstance == $ncall_Apply + 1
+//@   loop rangeindex#1: invariant paired: $ncall_MakeInstance == $ncall_Call
+//@   loop rangeindex#3: invariant paired: $ncall_MakeInstance == $ncall_Apply
